@@ -112,6 +112,42 @@ def gen_history(schema, ty, rnd, n, emphasis=None):
     import zlib
     ops = _gen_history(schema, ty, rnd, n, emphasis)
     r2 = random.Random(zlib.crc32(json.dumps([ty, ops], sort_keys=True).encode()))      # (independent of rnd: the histories themselves stay as they were)
+    # occurrences of known field numbers with a wire type the field cannot have (schema drift, a reused number): kept as unknown
+    # fields, and - like any unknown field - without effect on what the message holds, oneof selections included
+    for op in ops:
+        if op["op"] == "parse" and r2.random() < .3 and ty != "Nil":
+            op["mis"] = []
+            for f in r2.sample(schema["types"][ty], min(len(schema["types"][ty]), r2.randint(1, 2))):
+                fits = {_native_wt(f["kind"])} if f["card"] != "map" else {2}
+                if f["card"] == "repeated":
+                    fits.add(2)
+                op["mis"].append([f["num"], r2.choice(sorted({0, 1, 2, 5} - fits))])
+    # reads of a container inside a sub-message (unset or not): m.<f>.<list or map field>
+    if any(f["card"] == "map" for f in schema["types"][ty]) and r2.random() < .3:
+        ops.insert(r2.randint(1, len(ops)), {"op": "eqother"})
+    boxes = [(f, g) for f in schema["types"][ty] if f["kind"] == "message" and f["card"] in ("implicit", "optional", "oneof")
+             for g in schema["types"][f["msg"]] if g["card"] in ("repeated", "map")]
+    if boxes and r2.random() < .5:
+        for _ in range(r2.randint(1, 2)):
+            f, g = r2.choice(boxes)
+            ops.insert(r2.randint(1, len(ops)), {"op": "getin", "f": f["name"], "x": g["name"]})
+    if boxes and r2.random() < .5:
+        # ... and in-place fills of such a container: m.<f>.<x>.append(v) / m.<f>.<x>[k] = v
+        for _ in range(r2.randint(1, 3)):
+            f, g = r2.choice(boxes)
+            if g["kind"] == "message" or g.get("vkind") == "message":
+                continue
+            if g["card"] == "repeated":
+                fill = {"op": "appendin", "f": f["name"], "x": g["name"], "v": r2.choice(gen.single_domain(schema, g, g["kind"]))}
+            else:
+                fill = {"op": "mapsetin", "f": f["name"], "x": g["name"], "key": r2.choice(gen.scalar_domain(g["kkind"])[:6]), "v": r2.choice(gen.single_domain(schema, g, g["vkind"]))}
+            ops.insert(r2.randint(1, len(ops)), fill)
+    if r2.random() < .2:
+        # a blind history: the object is looked at only after the last call
+        for op in ops[:-1]:
+            op["blind"] = True
+        ops.append({"op": "observe"})
+        return ops
     if r2.random() < .3 and ty != "Nil":
         at = r2.randint(1, len(ops))
         if r2.random() < .6:
@@ -338,6 +374,13 @@ def run_history(schema, C, ty, ops, R=None, reread=False, dictback=False):
                 vf = dict(f, kind=f["vkind"])
                 getattr(m, op["f"])[dyn.conc_bp_single(schema, C, kf, f["kkind"], op["key"])] = \
                     C[f["msg"]]() if op["v"].get("fresh") else dyn.conc_bp_single(schema, C, vf, f["vkind"], op["v"])
+            elif k == "appendin":
+                g = next(x for x in schema["types"][byname[op["f"]]["msg"]] if x["name"] == op["x"])
+                getattr(getattr(m, op["f"]), op["x"]).append(dyn.conc_bp_single(schema, C, g, g["kind"], op["v"]))
+            elif k == "mapsetin":
+                g = next(x for x in schema["types"][byname[op["f"]]["msg"]] if x["name"] == op["x"])
+                getattr(getattr(m, op["f"]), op["x"])[dyn.conc_bp_single(schema, C, dict(g, kind=g["kkind"]), g["kkind"], op["key"])] = \
+                    dyn.conc_bp_single(schema, C, dict(g, kind=g["vkind"]), g["vkind"], op["v"])
             elif k == "selfin":
                 sub = getattr(m, op["f"])
                 setattr(sub, op["x"], getattr(sub, op["x"]))
@@ -347,7 +390,7 @@ def run_history(schema, C, ty, ops, R=None, reread=False, dictback=False):
                 getattr(getattr(m, op["f"]), op["x"])
             elif k == "parse":
                 from .props.c02 import UNKNOWN
-                b = bytes(dyn.conc_bp(schema, C, ty, op["src"])) + b"".join(UNKNOWN[i] for i in op.get("unk", []))
+                b = bytes(dyn.conc_bp(schema, C, ty, op["src"])) + b"".join(_occurrence(n, wt) for n, wt in op.get("mis", [])) + b"".join(UNKNOWN[i] for i in op.get("unk", []))
                 e["b"] = list(b)
                 m.parse(b)
             elif k == "parse_bad":
@@ -384,13 +427,39 @@ def run_history(schema, C, ty, ops, R=None, reread=False, dictback=False):
             elif k == "repr":
                 repr(m)
             elif k == "todict":
-                m.to_dict()
+                if len(log) % 2 or _reaches_cycle(schema, ty):      # (include_default_values never returns on a recursive type)
+                    m.to_dict()
+                else:        # (renders every field, unset sub-messages and their containers included)
+                    m.to_dict(include_default_values=True)
+                    m.to_pydict(include_default_values=True)
             elif k == "tojson":
                 m.to_json()
             elif k == "topydict":
                 m.to_pydict()
             elif k == "eqself":
                 e["eq"] = bool(m == m)
+            elif k == "eqother":
+                # compared with another message whose maps are defaultdicts (the natural container for counters) holding as many
+                # entries under one other key: the answer is False - and neither operand may have changed
+                import collections
+                other = copy.deepcopy(m)
+                differs = False
+                for f in schema["types"][ty]:
+                    if f["card"] != "map":
+                        continue
+                    cur = getattr(other, f["name"])
+                    dd = collections.defaultdict(int if f["vkind"] in gen.RANGE else C[f["msg"]] if f["vkind"] == "message" else str if f["vkind"] == "string" else bytes if f["vkind"] == "bytes" else float if f["vkind"] in ("float", "double") else bool if f["vkind"] == "bool" else int, cur)
+                    for key in list(dd):
+                        nk = key + "_" if isinstance(key, str) else key + 1 if isinstance(key, int) and not isinstance(key, bool) else None
+                        if nk is not None and nk not in dd:
+                            dd[nk] = dd.pop(key)
+                            differs = True
+                            break
+                    setattr(other, f["name"], dd)
+                before = bytes(other)
+                r1, r2_ = bool(m == other), bool(other == m)
+                e["eq"] = (r1 == r2_) and (r1 != differs)
+                e["samebytes"] = bytes(other) == before
             elif k == "observe":
                 pass
             elif k in ("copy", "deepcopy", "pickle"):
@@ -417,11 +486,49 @@ def run_history(schema, C, ty, ops, R=None, reread=False, dictback=False):
             e["res"] = "AttributeError"
         except Exception as ex:
             e["res"] = type(ex).__name__ + ":" + str(ex)[:60]
-        e["obs"] = observe(schema, m, ty, R, C if (reread or dictback) else None, dictback)
+        e["obs"] = {"blind": True} if op.get("blind") else observe(schema, m, ty, R, C if (reread or dictback) else None, dictback)
         log.append(e)
         if e["res"] not in ("ok", "AttributeError") and not e["res"].startswith("rejected:"):
             break
     return log
+
+
+_CYC = {}
+
+
+def _reaches_cycle(schema, ty):
+    if ty not in _CYC:
+        def walk(t, path):
+            for f in schema["types"][t]:
+                if f.get("msg") and f["card"] in ("implicit", "optional", "oneof"):
+                    if f["msg"] in path or walk(f["msg"], path + [f["msg"]]):
+                        return True
+            return False
+        _CYC[ty] = walk(ty, [ty])
+    return _CYC[ty]
+
+
+def _native_wt(kind):
+    if kind in ("fixed64", "sfixed64", "double"):
+        return 1
+    if kind in ("fixed32", "sfixed32", "float"):
+        return 5
+    if kind in ("string", "bytes", "message", "timestamp", "duration", "wrap", "map"):
+        return 2
+    return 0
+
+
+def _varint(n):
+    out = bytearray()
+    while True:
+        out.append((n & 0x7F) | (0x80 if n > 0x7F else 0))
+        n >>= 7
+        if not n:
+            return bytes(out)
+
+
+def _occurrence(num, wt):
+    return _varint(num << 3 | wt) + {0: b"\x05", 1: b"\x01\x02\x03\x04\x05\x06\x07\x08", 2: b"\x02\x08\x01", 5: b"\x01\x02\x03\x04"}[wt]
 
 
 def _in_dict(d, name):
